@@ -378,14 +378,24 @@ def _state(obj, model):
                 if hasattr(p, 'DefaultValue') and isinstance(p.DefaultValue, list):
                     for i, e in enumerate(p.DefaultValue):
                         out[f'{hn}.{dn}[{k}].DefaultValue[{i}]'] = e
+        # the parameter objects the holder's own attributes refer to (these are what its calculation reads; a registry shared between
+        # objects can make them differ from what the dictionaries show)
+        for an, p in vars(h).items():
+            if gx.is_param(p) and not isinstance(p.value, (list, dict)) and not hasattr(p.value, '__len__'):
+                out[f'{hn}.attribute[{an}]'] = p.value
     return out
+
+
+def _base(k):
+    return k.split('] ', 1)[1] if k.startswith('[objects alive') else k
 
 
 def run_fresh(unit):
     from . import c07
     modn, clsn = unit['module'], unit['cls']
     P = gx.P
-    obj0, model0, mod = gx.make_source(modn, clsn)
+    hip = modn == 'hip_ra_x.hip_ra_x'
+    obj0, model0, mod = c07._fresh(modn, clsn)
     pristine = _state(obj0, model0)
     names = [k for k, p in obj0.ParameterDict.items() if isinstance(p, (P.floatParameter, P.listParameter))]
     extra = []
@@ -400,8 +410,9 @@ def run_fresh(unit):
         lo, hi = float(prm0.Min), float(prm0.Max)
 
         def first_run(value, symbolic):
-            objA, modelA, _ = gx.make_source(modn, clsn)
-            name = objA.ParameterDict[pname].Name.strip()
+            objA, modelA, _ = c07._fresh(modn, clsn)
+            objB0, modelB0, _ = c07._fresh(modn, clsn)      # another run's objects already exist while this one reads (two requests alive in one process)
+            name = vars(objA).get('ParameterDict', objA.ParameterDict)[pname].Name.strip() if False else obj0.ParameterDict[pname].Name.strip()
             if symbolic:
                 tok = c07.NumStr('SYMV')
                 tok.proxy = value
@@ -410,23 +421,28 @@ def run_fresh(unit):
                 entry = P.ParameterEntry(Name=name, sValue=repr(value), raw_entry=f'{name}, {value!r}')
             modelA.InputParameters = {name: entry}
             import contextlib, io
+            sh = list(c07.param_shadows()) if symbolic else []
+            if hip:
+                sh.append((mod, 'read_input_file', lambda *a, **k: None))
             try:
-                with contextlib.redirect_stdout(io.StringIO()):
-                    if symbolic:
-                        with shim.shadow(*c07.param_shadows()):
-                            objA.read_parameters(modelA)
+                with contextlib.redirect_stdout(io.StringIO()), shim.shadow(*sh):
+                    if hip:
+                        objA.read_parameters()
                     else:
                         objA.read_parameters(modelA)
             except (ValueError, RuntimeError, IndexError):
                 pass
-            objB, modelB, _ = gx.make_source(modn, clsn)     # the next run: real constructors, nothing else
-            return _state(objB, modelB)
+            objB, modelB, _ = c07._fresh(modn, clsn)     # the next run: real constructors, nothing else
+            st = _state(objB, modelB)
+            for k, v in _state(objB0, modelB0).items():      # the run whose objects existed during the read
+                st['[objects alive during the read] ' + k] = v
+            return st
 
         def concrete(inp, only=None):
             st = first_run(float(inp['v']), False)
-            bad = [k for k in pristine if k in st and st[k] != pristine[k] and not (isinstance(st[k], float) and st[k] != st[k])]
+            bad = [k for k in st if _base(k) in pristine and st[k] != pristine[_base(k)] and not (isinstance(st[k], float) and st[k] != st[k])]
             return bool(bad), {'state of a freshly constructed run that differs from a pristine one': bad[:5],
-                               'values': {k: (repr(pristine[k]), repr(st[k])) for k in bad[:5]}}
+                               'values': {k: (repr(pristine[_base(k)]), repr(st[k])) for k in bad[:5]}}
 
         def fn():
             v = core.sym('v', lo, hi)
@@ -442,7 +458,7 @@ def run_fresh(unit):
                 if n <= 2:
                     harness.reachable(log, pr.ctx, 1000)
                 st = pr.value
-                diffs = [k for k in pristine if k in st and (core.is_sym(st[k]) or st[k] != pristine[k])]
+                diffs = [k for k in st if _base(k) in pristine and (core.is_sym(st[k]) or st[k] != pristine[_base(k)])]
                 log['obligations'] += 1
                 if not diffs:
                     log['discharged'] += 1
@@ -451,7 +467,7 @@ def run_fresh(unit):
                 log['obligations'] -= 1
                 for k in diffs[:4]:
                     val = st[k]
-                    prop = core.eq(val, pristine[k]) if core.is_sym(val) and isinstance(pristine[k], (int, float)) else False
+                    prop = core.eq(val, pristine[_base(k)]) if core.is_sym(val) and isinstance(pristine[_base(k)], (int, float)) else False
                     harness.discharge(log, pr.ctx, f'a freshly constructed run is independent of what an earlier run read ({k})', prop, zv, concrete)
         except core.Realize:
             log.note(f'{clsn}/{pname}: post-read code realises the value; not decided')
@@ -464,6 +480,7 @@ def units(tier, seed):
                      ('geophires_x.SurfacePlant', 'SurfacePlant'), ('geophires_x.Economics', 'Economics'), ('geophires_x.EconomicsAddOns', 'EconomicsAddOns')]
     if tier == 'thorough':
         fresh_classes = list(gx.SOURCE_CLASSES)
+    fresh_classes = fresh_classes + [('hip_ra_x.hip_ra_x', 'HIP_RA_X')]
     for modn, clsn in fresh_classes:
         us.append({'harness': 'fresh', 'module': modn, 'cls': clsn})
     for H in HS[tier]:
